@@ -258,6 +258,11 @@ def run(ctx: Ctx):
                          f"request that carries every required AVP is neither delivered nor answered")
     from .common_node import identity_semantics
     identity_semantics(ctx, "C08-R7")
+    from . import c20
+    ctx.include(c20.run, {"C20-R4"}, "C08-R8",
+                "the error answers the node makes itself (3003 / 3007 / 5005 / 5012) actually carry "
+                "their Result-Code: what _generate_answer returns encodes the attributes set on it",
+                floor=2, constructs=lambda c: "untyped" in c)
     from . import c06
     ctx.include(c06.run, {"C06-R1"}, "C08-R6",
                 "on a connection in either ready sub-state every received message reaches the "
